@@ -1,5 +1,7 @@
 -- All property files that are complete (no `sorry`). `setup_cmd` builds this.
+import JS.Props.C03
 import JS.Props.C04
+import JS.Props.C06
 import JS.Props.C07
 import JS.Props.C08
 import JS.Props.C09
